@@ -6,6 +6,7 @@ mod c09;
 mod c10;
 mod c14;
 mod c22;
+mod c25;
 mod c27;
 mod c28;
 mod c29;
@@ -24,6 +25,7 @@ fn main() {
         "c10" => c10::main(&args),
         "c14" => c14::main(&args),
         "c22" => c22::main(&args),
+        "c25" => c25::main(&args),
         "c27" => c27::main(&args),
         "c28" => c28::main(&args),
         "c29" => c29::main(&args),
